@@ -636,6 +636,27 @@ fn c06_iterate_root16() {
     kani::cover!(want_n == 0);
 }
 
+/// a directory block with 16 live entries with concrete names X0..XF (no end marker)
+fn full_concrete_dir_block() -> Block {
+    let mut b = Block::new();
+    let mut s = 0;
+    while s < 16 {
+        let o = 32 * s;
+        let mut i = 0;
+        while i < 11 {
+            b.contents[o + i] = b' ';
+            i += 1;
+        }
+        b.contents[o] = b'X';
+        b.contents[o + 1] = b"0123456789ABCDEF"[s];
+        b.contents[o + 11] = 0x20;
+        b.contents[o + 26] = 0;
+        b.contents[o + 28] = s as u8;
+        s += 1;
+    }
+    b
+}
+
 /// FAT32 root directory spanning two clusters (chain 2 -> 4 -> end, concrete
 /// FAT, directory contents symbolic): listing and lookup continue into the
 /// second cluster and stop at the end of the chain.
@@ -651,8 +672,8 @@ fn fat32_two_cluster_dir() -> ([Block; G32A_N], Block, Block) {
         put32(f, 20, 0);
     }
     blocks[G32A_FAT2 as usize] = blocks[G32A_FAT1 as usize].clone();
-    blocks[G32A_DATA as usize] = any_block(); // cluster 2
-    blocks[(G32A_DATA + 2) as usize] = any_block(); // cluster 4
+    blocks[G32A_DATA as usize] = full_concrete_dir_block(); // cluster 2: 16 live entries, concrete
+    blocks[(G32A_DATA + 2) as usize] = any_block(); // cluster 4: fully symbolic
     blocks[(G32A_DATA + 1) as usize] = any_block(); // cluster 3 (not part of the directory)
     let a = blocks[G32A_DATA as usize].clone();
     let b = blocks[(G32A_DATA + 2) as usize].clone();
@@ -715,6 +736,7 @@ fn c06_iterate_root32_two_clusters() {
     }
     kani::cover!(want_n == 32);
     kani::cover!(want_n == 17 && k == 16);
+    kani::cover!(want_n == 16);
 }
 
 /// FAT16 sub-directory spanning two clusters (3 -> 5 -> end).
@@ -731,8 +753,8 @@ fn c06_find_subdir16_two_clusters() {
         put16(f, 8, 0); // 4 free
         put16(f, 10, 0xFFFF); // 5 end
     }
-    blocks[(G16A_DATA + 1) as usize] = any_block(); // cluster 3
-    blocks[(G16A_DATA + 3) as usize] = any_block(); // cluster 5
+    blocks[(G16A_DATA + 1) as usize] = full_concrete_dir_block(); // cluster 3: 16 live entries, concrete
+    blocks[(G16A_DATA + 3) as usize] = any_block(); // cluster 5: fully symbolic
     blocks[(G16A_DATA + 2) as usize] = any_block(); // cluster 4: stale contents, not part of the directory
     let a = blocks[(G16A_DATA + 1) as usize].clone();
     let b = blocks[(G16A_DATA + 3) as usize].clone();
@@ -982,32 +1004,32 @@ fn c16_update_info_sector() {
 
 // --------------------------------------------------- truncate_cluster_chain ---
 
-/// truncate_cluster_chain on a concrete chain shape: `chain` lists the file's
-/// clusters in order; the other clusters hold `other`; free count and hint
-/// symbolic.  Afterwards the first cluster ends the chain, every other member
-/// is free, nothing else changed, both FAT copies agree, and the free-cluster
-/// record moved by exactly the number of clusters freed.
-fn truncate32<const L: usize>(chain: [u32; L], other: u32) {
-    let mut blocks: [Block; G32A_N] = zero_blocks();
+/// truncate_cluster_chain on a concrete chain shape (FAT16 entry width; the
+/// free-space record fields are FAT-type independent): `chain` lists the
+/// file's clusters in order; the other clusters hold `other`; free count and
+/// hint symbolic.  Afterwards the first cluster ends the chain, every other
+/// member is free, nothing else changed, and the free-cluster record moved by
+/// exactly the number of clusters freed.
+fn truncate16<const L: usize>(chain: [u32; L], other: u16) {
+    let mut blocks: [Block; G16A_N] = zero_blocks();
     {
-        let f = &mut blocks[G32A_FAT1 as usize].contents;
-        put32(f, 0, 0x0FFF_FFF8);
-        put32(f, 4, 0x0FFF_FFFF);
+        let f = &mut blocks[G16A_FAT as usize].contents;
+        put16(f, 0, 0xFFF8);
+        put16(f, 2, 0xFFFF);
         let mut c = 2;
         while c < 6 {
-            put32(f, 4 * c, other);
+            put16(f, 2 * c, other);
             c += 1;
         }
         let mut i = 0;
         while i < L {
-            let v = if i + 1 < L { chain[i + 1] } else { 0x0FFF_FFFF };
-            put32(f, 4 * chain[i] as usize, v);
+            let v = if i + 1 < L { chain[i + 1] as u16 } else { 0xFFFF };
+            put16(f, 2 * chain[i] as usize, v);
             i += 1;
         }
     }
-    blocks[G32A_FAT2 as usize] = blocks[G32A_FAT1 as usize].clone();
-    let pre = blocks[G32A_FAT1 as usize].clone();
-    let mut vol = g32a();
+    let pre = blocks[G16A_FAT as usize].clone();
+    let mut vol = g16a();
     let count0: Option<u32> = if kani::any() { Some(kani::any()) } else { None };
     kani::assume(count0.map_or(true, |n| n <= 0xFFFF_FFF0));
     vol.free_clusters_count = count0;
@@ -1017,28 +1039,31 @@ fn truncate32<const L: usize>(chain: [u32; L], other: u32) {
     let r = vol.truncate_cluster_chain(&mut cache, ClusterId(chain[0]));
     assert!(r.is_ok(), "truncate: failed on a well-formed chain");
     let dev = vk_bd::dev(&cache);
-    let post = dev.block(G32A_FAT1);
-    let post2 = dev.block(G32A_FAT2);
-    assert!(f32(&post, chain[0]) & 0x0FFF_FFFF >= 0x0FFF_FFF8, "truncate: kept cluster does not end the chain");
+    let post = dev.block(G16A_FAT);
+    assert!(f16(&post, chain[0]) >= 0xFFF8, "truncate: kept cluster does not end the chain");
     let mut i = 1;
     while i < L {
-        assert!(f32(&post, chain[i]) & 0x0FFF_FFFF == 0, "truncate: a cluster of the removed tail is not free");
+        assert!(f16(&post, chain[i]) == 0, "truncate: a cluster of the removed tail is not free");
         i += 1;
     }
-    let q: u32 = kani::any();
-    kani::assume(q < 128);
-    let mut in_chain = false;
-    i = 0;
-    while i < L {
-        if chain[i] == q {
-            in_chain = true;
+    let pp: usize = kani::any();
+    kani::assume(pp >= 16 && pp < 512);
+    assert!(post.contents[pp] == pre.contents[pp], "fat.frame: truncate changed FAT bytes beyond the volume's entries");
+    let mut q = 0u32;
+    while q < 8 {
+        let mut in_chain = false;
+        i = 0;
+        while i < L {
+            if chain[i] == q {
+                in_chain = true;
+            }
+            i += 1;
         }
-        i += 1;
+        if !in_chain {
+            assert!(f16(&post, q) == f16(&pre, q), "fat.frame: truncate changed a FAT entry outside the chain");
+        }
+        q += 1;
     }
-    if !in_chain {
-        assert!(f32(&post, q) == f32(&pre, q), "fat.frame: truncate changed a FAT entry outside the chain");
-    }
-    assert!(f32(&post2, q) == f32(&post, q), "fat.copies: second FAT differs from the first after truncate");
     let freed = L as u32 - 1;
     match (count0, vol.free_clusters_count) {
         (Some(a), Some(b)) => assert!(b == a + freed, "info.count: free-cluster count did not grow by the number of clusters freed"),
@@ -1054,22 +1079,425 @@ fn truncate32<const L: usize>(chain: [u32; L], other: u32) {
     kani::cover!(count0.is_none() && hint0.is_none());
 }
 #[kani::proof]
-#[kani::unwind(16)]
-fn c16_truncate32_chain3() {
-    truncate32([3, 5, 2], 0x0FFF_FFFF);
+#[kani::unwind(12)]
+fn c16_truncate16_chain3() {
+    truncate16([3, 5, 2], 0xFFFF);
 }
 #[kani::proof]
-#[kani::unwind(16)]
-fn c16_truncate32_chain2() {
-    truncate32([4, 2], 0);
+#[kani::unwind(12)]
+fn c16_truncate16_chain2() {
+    truncate16([4, 2], 0);
 }
 #[kani::proof]
-#[kani::unwind(16)]
-fn c16_truncate32_chain1() {
-    truncate32([5], 0x0FFF_FFFF);
+#[kani::unwind(12)]
+fn c16_truncate16_chain1() {
+    truncate16([5], 0xFFFF);
 }
 #[kani::proof]
+#[kani::unwind(12)]
+fn c16_truncate16_chain4() {
+    truncate16([2, 3, 4, 5], 0);
+}
+
+// ======================================================= crash points (C10/C09) ===
+// SymDisk::crash_at = k: `persisted` receives only the first k block writes, i.e. it is
+// exactly the medium as a power cut after k writes leaves it (the library itself
+// keeps running on the live image).
+
+fn fat32_concrete(entries: [u32; 4]) -> Block {
+    let mut b = Block::new();
+    put32(&mut b.contents, 0, 0x0FFF_FFF8);
+    put32(&mut b.contents, 4, 0x0FFF_FFFF);
+    let mut c = 0;
+    while c < 4 {
+        put32(&mut b.contents, 8 + 4 * c, entries[c]);
+        c += 1;
+    }
+    b
+}
+
+/// every link of the chain starting at `first` leads to an allocated, in-range
+/// cluster and the chain ends with an end-of-chain mark within 4 steps
+fn chain_sound32(fat: &Block, first: u32) -> bool {
+    let mut c = first;
+    let mut ok = true;
+    let mut done = false;
+    let mut i = 0;
+    while i < 5 {
+        if !done {
+            if c < 2 || c >= 6 {
+                ok = false;
+                done = true;
+            } else {
+                let e = f32(fat, c) & 0x0FFF_FFFF;
+                if e >= 0x0FFF_FFF8 {
+                    done = true;
+                } else if e == 0 || e == 1 || e == 0x0FFF_FFF7 {
+                    ok = false; // free / reserved / bad
+                    done = true;
+                } else {
+                    c = e;
+                }
+            }
+        }
+        i += 1;
+    }
+    ok && done
+}
+
+fn fat16_concrete(entries: [u16; 4]) -> Block {
+    let mut b = Block::new();
+    put16(&mut b.contents, 0, 0xFFF8);
+    put16(&mut b.contents, 2, 0xFFFF);
+    let mut c = 0;
+    while c < 4 {
+        put16(&mut b.contents, 4 + 2 * c, entries[c]);
+        c += 1;
+    }
+    b
+}
+fn chain_sound16(fat: &Block, first: u32) -> bool {
+    let mut c = first;
+    let mut ok = true;
+    let mut done = false;
+    let mut i = 0;
+    while i < 5 {
+        if !done {
+            if c < 2 || c >= 6 {
+                ok = false;
+                done = true;
+            } else {
+                let e = f16(fat, c);
+                if e >= 0xFFF8 {
+                    done = true;
+                } else if e == 0 || e == 1 || e == 0xFFF7 {
+                    ok = false; // free / reserved / bad
+                    done = true;
+                } else {
+                    c = e as u32;
+                }
+            }
+        }
+        i += 1;
+    }
+    ok && done
+}
+
+/// Extending a chain by one cluster, power cut after any number of writes: the
+/// file's chain on the medium never leads to a free cluster; an unrelated
+/// flushed file (cluster 5) keeps its FAT entry and its data.
+#[kani::proof]
+#[kani::unwind(514)]
+fn c10_crash_alloc_extend16() {
+    let mut blocks: [Block; G16A_N] = zero_blocks();
+    // file: 3 -> 2 (tail 2); cluster 4 free; cluster 5: another flushed file
+    blocks[G16A_FAT as usize] = fat16_concrete([0xFFFF, 2, 0, 0xFFFF]);
+    blocks[(G16A_DATA + 3) as usize] = any_block();
+    let other = blocks[(G16A_DATA + 3) as usize].clone();
+    let mut vol = g16a();
+    let mut dev = SymDisk::new(0, blocks);
+    let k: u32 = kani::any();
+    kani::assume(k <= 6);
+    dev.crash_at = Some(k);
+    let mut cache = BlockCache::new(dev);
+    let _ = vol.alloc_cluster(&mut cache, Some(ClusterId(2)), false);
+    let dev = vk_bd::dev(&cache);
+    let fat = dev.pblock(G16A_FAT);
+    assert!(chain_sound16(&fat, 3), "crash.chain: after a power cut the file's chain leads to a free / bad / out-of-range cluster");
+    assert!(f16(&fat, 5) == 0xFFFF, "crash.flushed: FAT entry of an unrelated flushed file changed");
+    let od = dev.pblock(G16A_DATA + 3);
+    let mut p = 0;
+    while p < 512 {
+        assert!(od.contents[p] == other.contents[p], "crash.flushed: data of an unrelated flushed file changed");
+        p += 1;
+    }
+    kani::cover!(k == 1);
+    kani::cover!(k >= dev.nwrites.get());
+}
+
+/// Truncating a 3-cluster chain, power cut after any number of writes.
+#[kani::proof]
 #[kani::unwind(16)]
-fn c16_truncate32_chain4() {
-    truncate32([2, 3, 4, 5], 0);
+fn c10_crash_truncate16() {
+    let mut blocks: [Block; G16A_N] = zero_blocks();
+    // file: 3 -> 5 -> 2; cluster 4: another flushed file
+    blocks[G16A_FAT as usize] = fat16_concrete([0xFFFF, 5, 0xFFFF, 2]);
+    let mut vol = g16a();
+    let mut dev = SymDisk::new(0, blocks);
+    let k: u32 = kani::any();
+    kani::assume(k <= 6);
+    dev.crash_at = Some(k);
+    let mut cache = BlockCache::new(dev);
+    let _ = vol.truncate_cluster_chain(&mut cache, ClusterId(3));
+    let dev = vk_bd::dev(&cache);
+    let fat = dev.pblock(G16A_FAT);
+    assert!(chain_sound16(&fat, 3), "crash.chain: after a power cut during truncation the file's chain leads to a free cluster");
+    assert!(f16(&fat, 4) == 0xFFFF, "crash.flushed: FAT entry of an unrelated flushed file changed");
+    kani::cover!(k == 1);
+    kani::cover!(k == 2);
+    kani::cover!(k >= dev.nwrites.get());
+}
+
+/// make_dir in the FAT16 root, power cut after any number of writes: a live
+/// sub-directory entry on the medium always has its own, allocated,
+/// initialised cluster; other directory entries are untouched.
+#[kani::proof]
+#[kani::unwind(34)]
+fn c10_crash_make_dir16() {
+    let mut blocks: [Block; G16A_N] = zero_blocks();
+    {
+        let f = &mut blocks[G16A_FAT as usize].contents;
+        put16(f, 0, 0xFFF8);
+        put16(f, 2, 0xFFFF);
+        put16(f, 4, 0xFFFF); // 2: a flushed file
+        put16(f, 6, 0); // 3 free (stale contents)
+        put16(f, 8, 0);
+        put16(f, 10, 0);
+    }
+    {
+        // root: slot 0 = flushed file KEEP.DAT (cluster 2), rest end of directory
+        let r = &mut blocks[G16A_ROOT as usize].contents;
+        let name = *b"KEEP    DAT";
+        let mut i = 0;
+        while i < 11 {
+            r[i] = name[i];
+            i += 1;
+        }
+        r[11] = 0x20;
+        put16(r, 26, 2);
+        put32(r, 28, 100);
+    }
+    blocks[(G16A_DATA + 1) as usize] = any_block(); // free cluster 3 holds stale bytes
+    let root0 = blocks[G16A_ROOT as usize].clone();
+    let mut vol = g16a();
+    let mut dev = SymDisk::new(0, blocks);
+    let k: u32 = kani::any();
+    kani::assume(k <= 10);
+    dev.crash_at = Some(k);
+    let mut cache = BlockCache::new(dev);
+    let name = ShortFileName { contents: *b"SUB        " };
+    let _ = vol.make_dir(&mut cache, &Clock(fixed_timestamp()), ClusterId::ROOT_DIR, name, Attributes::create_from_fat(Attributes::DIRECTORY));
+    let dev = vk_bd::dev(&cache);
+    let root = dev.pblock(G16A_ROOT);
+    let fat = dev.pblock(G16A_FAT);
+    // the flushed file's entry is intact
+    let mut p = 0;
+    while p < 32 {
+        assert!(root.contents[p] == root0.contents[p], "crash.flushed: directory entry of an unrelated flushed file changed");
+        p += 1;
+    }
+    assert!(le16(&fat.contents, 4) == 0xFFFF, "crash.flushed: FAT entry of an unrelated flushed file changed");
+    // the new sub-directory entry (slot 1), if visible
+    if root.contents[32] != 0x00 && root.contents[32] != 0xE5 && root.contents[32 + 11] & 0x10 != 0 {
+        let c = le16(&root.contents, 32 + 26) as u32;
+        assert!(c >= 2 && c < 6, "crash.subdir: sub-directory entry on the medium has no cluster of its own");
+        assert!(le16(&fat.contents, 2 * c as usize) >= 0xFFF8, "crash.subdir: sub-directory entry points at a cluster that is not allocated");
+        let d = dev.pblock(G16A_DATA + c - 2);
+        assert!(d.contents[0] == b'.' && d.contents[32] == b'.' && d.contents[33] == b'.' && d.contents[64] == 0, "crash.subdir: sub-directory cluster exposes uninitialised contents (no dot entries / stale slots)");
+    }
+    kani::cover!(k == 1);
+    kani::cover!(k >= dev.nwrites.get());
+}
+
+// ===================================================== device faults (C11) ===
+
+/// BlockCache: a failed read (buffer scribbled) must not leave the cache
+/// claiming to hold a block: the next read of the previously cached block goes
+/// to the device again and returns its real contents.
+#[kani::proof]
+#[kani::unwind(12)]
+fn c11_cache_invalidated_on_failed_read() {
+    let mut blocks: [Block; G16A_N] = zero_blocks();
+    blocks[2] = any_block();
+    blocks[3] = any_block();
+    let b2 = blocks[2].clone();
+    let mut dev = SymDisk::new(0, blocks);
+    dev.fail_at = Some(1); // second device call fails
+    let mut cache = BlockCache::new(dev);
+    let r1 = cache.read(BlockIdx(2)).map(|b| b.contents[7]);
+    assert!(r1 == Ok(b2.contents[7]), "cache: first read");
+    let r2 = cache.read(BlockIdx(3)).map(|b| b.contents[7]);
+    assert!(r2.is_err(), "fault.reported: failed device read returned Ok");
+    let p: usize = kani::any();
+    kani::assume(p < 512);
+    let r3 = cache.read_mut(BlockIdx(2)).map(|b| b.contents[p]);
+    assert!(r3 == Ok(b2.contents[p]), "fault.cache: after a failed read the cache serves scribbled bytes as the previously cached block");
+    kani::cover!(vk_bd::dev(&cache).nreads.get() == 3);
+}
+
+/// Device fault at a concrete call index `n` of a lookup / listing over a
+/// FAT16 sub-directory of two clusters (3 -> 5; the device calls are: read
+/// cluster 3, read the FAT, read cluster 5).  If the fault fired the result is
+/// the device error - never NotFound, never Ok with a truncated listing.
+fn two_cluster_dir_image() -> [Block; G16A_N] {
+    let mut blocks: [Block; G16A_N] = zero_blocks();
+    {
+        let f = &mut blocks[G16A_FAT as usize].contents;
+        put16(f, 0, 0xFFF8);
+        put16(f, 2, 0xFFFF);
+        put16(f, 4, 0xFFFF);
+        put16(f, 6, 5);
+        put16(f, 8, 0);
+        put16(f, 10, 0xFFFF);
+    }
+    blocks[(G16A_DATA + 1) as usize] = full_concrete_dir_block();
+    blocks[(G16A_DATA + 3) as usize] = full_concrete_dir_block();
+    blocks
+}
+fn subdir3() -> DirectoryInfo {
+    DirectoryInfo { raw_directory: crate::filesystem::RawDirectory(crate::filesystem::Handle(7)), raw_volume: crate::RawVolume(crate::filesystem::Handle(1)), cluster: ClusterId(3) }
+}
+fn find_fault(n: u32) {
+    let mut dev = SymDisk::new(0, two_cluster_dir_image());
+    dev.fail_at = Some(n);
+    let vol = g16a();
+    let mut cache = BlockCache::new(dev);
+    let name = ShortFileName { contents: *b"NOSUCH  TXT" };
+    let r = vol.find_directory_entry(&mut cache, &subdir3(), &name);
+    let dev = vk_bd::dev(&cache);
+    if dev.failed.get() {
+        assert!(matches!(r, Err(Error::DeviceError(_))), "fault.reported: a device error during lookup was turned into NotFound / an entry");
+    } else {
+        assert!(matches!(r, Err(Error::NotFound)), "dir.lookup: missing name not reported as NotFound");
+    }
+    kani::cover!(dev.failed.get() == (n < 3));
+}
+fn iterate_fault(n: u32) {
+    let mut dev = SymDisk::new(0, two_cluster_dir_image());
+    dev.fail_at = Some(n);
+    let vol = g16a();
+    let mut cache = BlockCache::new(dev);
+    let mut count = 0u32;
+    let r = vol.iterate_dir(&mut cache, &subdir3(), |_| count += 1);
+    let dev = vk_bd::dev(&cache);
+    if dev.failed.get() {
+        assert!(r.is_err(), "fault.reported: listing returned Ok (truncated) although a device read failed");
+    } else {
+        assert!(r.is_ok() && count == 32, "dir.list: complete listing expected without a fault");
+    }
+    kani::cover!(dev.failed.get() == (n < 3));
+}
+#[kani::proof]
+#[kani::unwind(34)]
+fn c11_find_fault_dir_block() {
+    find_fault(0);
+}
+#[kani::proof]
+#[kani::unwind(34)]
+fn c11_find_fault_fat_read() {
+    find_fault(1);
+}
+#[kani::proof]
+#[kani::unwind(34)]
+fn c11_find_fault_second_cluster() {
+    find_fault(2);
+}
+#[kani::proof]
+#[kani::unwind(34)]
+fn c11_iterate_fault_dir_block() {
+    iterate_fault(0);
+}
+#[kani::proof]
+#[kani::unwind(34)]
+fn c11_iterate_fault_fat_read() {
+    iterate_fault(1);
+}
+#[kani::proof]
+#[kani::unwind(34)]
+fn c11_iterate_no_fault() {
+    iterate_fault(9);
+}
+
+/// Lookup in the fixed FAT16 root whose only device read fails: DeviceError.
+#[kani::proof]
+#[kani::unwind(34)]
+fn c11_find_fault_root16() {
+    let mut blocks: [Block; G16A_N] = zero_blocks();
+    blocks[G16A_ROOT as usize] = full_concrete_dir_block();
+    let mut dev = SymDisk::new(0, blocks);
+    dev.fail_at = Some(0);
+    let vol = g16a();
+    let mut cache = BlockCache::new(dev);
+    let name = ShortFileName { contents: *b"NOSUCH  TXT" };
+    let r = vol.find_directory_entry(&mut cache, &root16_dirinfo(), &name);
+    assert!(matches!(r, Err(Error::DeviceError(_))), "fault.reported: a device error during lookup was turned into NotFound / an entry");
+    let r2 = vol.delete_directory_entry(&mut cache, &root16_dirinfo(), &name);
+    assert!(matches!(r2, Err(Error::NotFound)), "fault.retry: after a transient fault the retried call must give the correct answer");
+    kani::cover!(vk_bd::dev(&cache).failed.get());
+}
+
+/// Creating / deleting another file's directory entry in the block that also
+/// holds a flushed file's entry, power cut after any number of writes: the
+/// flushed file's entry, FAT entry and data are unchanged on the medium, and
+/// the other slot is either entirely old or entirely new.
+fn crash_dir_entry(delete: bool) {
+    let mut blocks: [Block; G16A_N] = zero_blocks();
+    blocks[G16A_FAT as usize] = fat16_concrete([0xFFFF, 0xFFFF, 0, 0]);
+    {
+        let r = &mut blocks[G16A_ROOT as usize].contents;
+        let keep = *b"KEEP    DAT";
+        let other = *b"OTHER   DAT";
+        let mut i = 0;
+        while i < 11 {
+            r[i] = keep[i];
+            if delete {
+                r[32 + i] = other[i];
+            }
+            i += 1;
+        }
+        r[11] = 0x20;
+        put16(r, 26, 2);
+        put32(r, 28, kani::any());
+        if delete {
+            r[32 + 11] = 0x20;
+            put16(r, 32 + 26, 3);
+        }
+    }
+    blocks[G16A_DATA as usize] = any_block();
+    let root0 = blocks[G16A_ROOT as usize].clone();
+    let data0 = blocks[G16A_DATA as usize].clone();
+    let mut vol = g16a();
+    let mut dev = SymDisk::new(0, blocks);
+    let k: u32 = kani::any();
+    kani::assume(k <= 3);
+    dev.crash_at = Some(k);
+    let mut cache = BlockCache::new(dev);
+    let name = ShortFileName { contents: *b"OTHER   DAT" };
+    if delete {
+        let _ = vol.delete_directory_entry(&mut cache, &root16_dirinfo(), &name);
+    } else {
+        let _ = vol.write_new_directory_entry(&mut cache, &Clock(fixed_timestamp()), ClusterId::ROOT_DIR, name, Attributes::create_from_fat(0));
+    }
+    let dev = vk_bd::dev(&cache);
+    let root = dev.pblock(G16A_ROOT);
+    let fat = dev.pblock(G16A_FAT);
+    let d = dev.pblock(G16A_DATA);
+    let mut p = 0;
+    while p < 32 {
+        assert!(root.contents[p] == root0.contents[p], "crash.flushed: directory entry of an unrelated flushed file changed");
+        p += 1;
+    }
+    p = 64;
+    while p < 512 {
+        assert!(root.contents[p] == root0.contents[p], "crash.frame: other directory slots changed");
+        p += 1;
+    }
+    assert!(f16(&fat, 2) == 0xFFFF && f16(&fat, 3) == 0xFFFF, "crash.flushed: FAT entries changed by a directory-entry operation");
+    p = 0;
+    while p < 512 {
+        assert!(d.contents[p] == data0.contents[p], "crash.flushed: data of an unrelated flushed file changed");
+        p += 1;
+    }
+    kani::cover!(k == 0);
+    kani::cover!(k >= dev.nwrites.get() && dev.nwrites.get() == 1);
+}
+#[kani::proof]
+#[kani::unwind(514)]
+fn c09_crash_create_entry16() {
+    crash_dir_entry(false);
+}
+#[kani::proof]
+#[kani::unwind(514)]
+fn c09_crash_delete_entry16() {
+    crash_dir_entry(true);
 }
